@@ -438,8 +438,14 @@ func NewServerIface(name string, prefix string, port uint16, linkedIP bool) (s *
 		Protocol:        agd.ProtoDNS,
 		LinkedIPEnabled: linkedIP,
 	}
+	// The interface's subnet (dedicated addresses live in it) and the
+	// server's own address on it, the first of the subnet.
+	pref := netip.MustParsePrefix(prefix)
+	own := netip.PrefixFrom(pref.Addr().Next(), pref.Addr().BitLen())
 	s.SetBindData([]*agd.ServerBindData{{
-		PrefixAddr: &agdnet.PrefixNetAddr{Prefix: netip.MustParsePrefix(prefix), Net: "udp", Port: port},
+		PrefixAddr: &agdnet.PrefixNetAddr{Prefix: pref, Net: "udp", Port: port},
+	}, {
+		PrefixAddr: &agdnet.PrefixNetAddr{Prefix: own, Net: "udp", Port: port},
 	}})
 
 	return s
